@@ -172,9 +172,48 @@ func c08Adjacent(r *fw.Rand) string {
 	return pre + term + sp1 + op + sp2 + operand + post
 }
 
+// c08LoopFunc nests loops, functions, computed values and template blocks in each other, with
+// break / continue / return at every level — in particular right after an inner construct of a
+// body that has its own instruction buffer.
+func c08LoopFunc(r *fw.Rand) string {
+	inner := func() string {
+		return r.Pick([]string{"while 0 {}", "while 0 { break }", "j = 0; while j < 2 { j = j + 1 }", "if 1 { 2 }", "j = 0; while j < 2 { j = j + 1; if j { continue } }", "`{% while 0 {} %}`", "func h() { while 0 {} }; h()", ""})
+	}
+	stray := func() string {
+		return r.Pick([]string{"break", "continue", "if 1 { break }", "if 1 { continue }", "return 1", "", "1", "if 0 { 1 } else { break }", "`{% break %}`"})
+	}
+	body := inner() + "; " + stray()
+	var unit string
+	switch r.Intn(5) {
+	case 0:
+		unit = "func g() { " + body + " }; g()"
+	case 1:
+		unit = "&cg = `{% " + body + " %}`; cg"
+	case 2:
+		unit = "func g() { func k() { " + body + " }; k() }; g()"
+	case 3:
+		unit = "`{% func g() { " + body + " }; g() %}`"
+	default:
+		unit = "if 1 { func g() { " + body + " }; g() }"
+	}
+	switch r.Intn(4) {
+	case 0:
+		return "i = 0; while i < 3 { i = i + 1; " + unit + " }; i"
+	case 1:
+		return "i = 0; while i < 3 { i = i + 1; " + unit + "; " + stray() + " }; i"
+	case 2:
+		return "i = 0; while i < 2 { i = i + 1; k = 0; while k < 2 { k = k + 1; " + unit + " }; " + stray() + " }; i"
+	default:
+		return unit + "; " + stray()
+	}
+}
+
 func c08Source(r *fw.Rand) (string, string) {
 	if r.P(1, 12) {
 		return c08Adjacent(r), "adjacent"
+	}
+	if r.P(1, 15) {
+		return c08LoopFunc(r), "loop-func"
 	}
 	switch k := r.Intn(25); {
 	case k >= 23:
